@@ -13,7 +13,7 @@ import uuid as _uuid
 from . import refcodec as R
 from .core import Diverged
 from .observe import model_view
-from .ops import Exp, Op, Out, capture, register
+from .ops import OPS, Exp, Op, Out, capture, register
 from .oracle_own import compare_model
 from .world import FIELDS, MNode
 
@@ -557,6 +557,83 @@ class Save(Op):
             if len(snap["nodes"][snap["ir"]].a["modules"]) >= 2:
                 w.counters["probe:saves_multi_module"] += 1
         return Exp("ok", value=None, owner=("C01",))
+
+
+class FailingStream:
+    """A stream on a full / failing disk: accepts `limit` bytes, then write()
+    raises OSError. What was accepted is what the disk holds afterwards."""
+
+    def __init__(self, limit, err):
+        self.limit, self.err = limit, err
+        self.data = bytearray()
+        self.fired = False
+
+    def write(self, b):
+        b = bytes(b)
+        room = self.limit - len(self.data)
+        if len(b) > room:
+            self.data += b[: max(room, 0)]  # short write, then the error
+            self.fired = True
+            raise self.err
+        self.data += b
+        return len(b)
+
+    def flush(self):
+        pass
+
+
+@register
+class SaveFault(Op):
+    """{"op":"save_fault","ir":I,"path":P,"fail_after":k,"errno":E}: save to a
+    stream that accepts k bytes and then fails (disk full, I/O error). The call
+    must not report success; nothing in memory may change (the per-step model
+    comparison sees to that); the torn file is not a durable copy of anything.
+    If the IR fits into k bytes no fault fires and this is an ordinary save."""
+
+    name = "save_fault"
+    family = "persist"
+    timeout_owner = ("C01", "C14")
+
+    def labels(self, op):
+        return [(op["ir"], ("ir",))]
+
+    def touched(self, w, op):
+        return []
+
+    def ready(self, w, op):
+        # a table retyped while its bytes are still undecoded is decoded by the save - if the
+        # save gets that far. Keep the model exact: not under a write fault.
+        n = w.m.nodes[op["ir"]]
+        for cl in [op["ir"]] + list(n.a["modules"]):
+            if cl in w.m.nodes and any(t["state"] == "retyped" for t in w.m.nodes[cl].a["aux"].values()):
+                return False
+        return True
+
+    def run(self, w, op):
+        import errno
+
+        I = w.objs[op["ir"]]
+        e = OSError(getattr(errno, op.get("errno", "ENOSPC")), "simulated write failure")
+        st = FailingStream(op["fail_after"], e)
+        out = capture(lambda: I.save_protobuf_file(st))
+        out.value = None
+        out.raw = st
+        w.disk.files[op["path"]] = bytes(st.data)
+        w.disk.chunks[op["path"]] = None
+        return out
+
+    def model(self, w, op, out):
+        st = out.raw
+        if not getattr(st, "fired", False):
+            return OPS["save"].model(w, op, out)
+        w.counters["fault:write_error_during_save"] += 1
+        # the file at that path is torn now: no durable copy of anything
+        w.snapshots.pop(op["path"], None)
+        for il in [il for il, p in w.saved_as.items() if p == op["path"]]:
+            del w.saved_as[il]
+        if out.kind == "ok":
+            w.violate(("C01", "C14"), "save:write_error_swallowed", "the stream failed after %d bytes (%s) but save_protobuf_file returned normally; %d bytes are on the disk" % (op["fail_after"], op.get("errno", "ENOSPC"), len(st.data)))
+        return None  # which exception reaches the caller is not prescribed by any statement
 
 
 def _count_refs(snap):
